@@ -69,7 +69,7 @@ func c04Build(seed uint64, shape string) (*lib.Build, *lib.Build, []string) {
 func c04Cases(tier string, seed uint64, flavor string) []lib.Case {
 	n := 150
 	if tier == "thorough" {
-		n = 3000
+		n = 20000
 	}
 	if flavor == "race" {
 		n = 200
